@@ -218,7 +218,16 @@ func debugTraceback(L *LState) int {
 	}
 	level := L.OptInt(arg+2, deflevel)
 
-	traceback := strings.TrimSpace(ls.stackTrace(level))
+	// levels are those of getinfo/getlocal: on a suspended coroutine level 0 is the yield function
+	yieldLine := ""
+	if _, ok, inYield := stackOf(L, ls, 0); ok && inYield {
+		if level <= 0 {
+			yieldLine = "\t[G]: in function 'yield'\n"
+		} else {
+			level--
+		}
+	}
+	traceback := strings.TrimSpace(strings.Replace(ls.stackTrace(level), "stack traceback:\n", "stack traceback:\n"+yieldLine, 1))
 	if len(msg) > 0 {
 		traceback = fmt.Sprintf("%s\n%s", msg, traceback)
 	}
